@@ -341,14 +341,25 @@ def _run(case, ctx):
         xa, xb = a / R.SI_PREFIX[lp], b / R.SI_PREFIX[lp]
         info = dict(u=ut, a=xa, b=xb, sign=sign)
 
+        hist = {}
+
         def go():
-            res = (Q(xa, ut) + Q(xb, ut)) if sign > 0 else (Q(xa, ut) - Q(xb, ut))
+            # the same two quantities are used twice: the documented power sum holds every time it is formed, not only the first
+            qa, qb = Q(xa, ut), Q(xb, ut)
+            res = (qa + qb) if sign > 0 else (qa - qb)
+            again = (qa + qb) if sign > 0 else (qa - qb)
+            hist['second'] = float(again.magnitude.value)
+            hist['operands'] = (float(qa.magnitude.value), qa.units(), float(qb.magnitude.value), qb.units())
             return float(res.magnitude.value), res.units()
         res = guarded(go, sym, sym, 'level-sum', info)
         if res is not None:
             check(res[0], exp, 'level-power-sum', 'sum_compares', 1e-9, 1e-9 / R.SI_PREFIX[lp], info)
             if res[1] != ut:
                 devs.append(dev('level-sum-units', dict(info, units=res[1])))
+            check(hist['second'], exp, 'level-power-sum-formed-a-second-time', 'sum_compares', 1e-9, 1e-9 / R.SI_PREFIX[lp], info)
+            oa, ua_, ob, ub_ = hist['operands']
+            if not (close(oa, xa, 1e-12, 0.0) and close(ob, xb, 1e-12, 0.0) and ua_ == ut and ub_ == ut):
+                devs.append(dev('level-sum-changes-an-operand', dict(info, operands_after=hist['operands'])))
         return outcome(classes=classes, nontrivial=True, fp='sum %s %d %d %d' % (ut, sign, int(a), int(b)), dev=devs, monitors=mon,
                        sample=dict(case='Quantity(%r,%r) %s Quantity(%r,%r)' % (xa, ut, '+' if sign > 0 else '-', xb, ut), expected=exp))
     raise ValueError(t)
